@@ -58,6 +58,21 @@ func checkPoly(p *packer, a *[256]int32) (string, string) {
 			return p.name + "/overrun", "packer wrote past its output length"
 		}
 	}
+	// the library hands its packers slices that are LONGER than one polynomial (the rest of the key / signature):
+	// whatever follows the polynomial's own bytes must be left alone
+	long := make([]uint8, p.bytes+16)
+	for i := range long {
+		long[i] = 0xA5
+	}
+	p.pack(long, a)
+	for i := p.bytes; i < len(long); i++ {
+		if long[i] != 0xA5 {
+			return p.name + "/overrun", fmt.Sprintf("%s pack into a longer destination changed byte %d beyond its %d bytes", p.name, i, p.bytes)
+		}
+	}
+	if !bytes.Equal(long[:p.bytes], out[:p.bytes]) {
+		return p.name + "/pack", p.name + " pack output depends on the destination slice's length"
+	}
 	var rp dilref.Poly
 	for i := range rp {
 		rp[i] = dilref.Mod(int64(a[i]))
@@ -447,8 +462,38 @@ func TestSignatureStrings(t *testing.T) {
 			if total > 75 {
 				total = 75
 			}
-			kind := rapid.SampledFrom([]string{"swap", "duplicate", "padding", "padding-pair-sum-zero", "count+1", "count-1", "count-any", "random-position-byte", "z-byte", "count-chain"}).Draw(rt, "edit")
+			kind := rapid.SampledFrom([]string{"last-counts-lowered", "position-after-255", "swap", "duplicate", "padding", "padding-pair-sum-zero", "count+1", "count-1", "count-any", "random-position-byte", "z-byte", "count-chain"}).Draw(rt, "edit")
 			switch kind {
+			case "last-counts-lowered":
+				// rewrite the hint section: rows 0..r-1 keep a few hints, rows r..6 hold only position 0, row 7 is empty;
+				// then the last count byte is lowered by the number of such rows (counts no longer non-decreasing)
+				for i := offHint; i < offCnt+8; i++ {
+					o[i] = 0
+				}
+				r0 := rapid.IntRange(3, 6).Draw(rt, "firstZeroRow")
+				k := 0
+				for row := 0; row < 8; row++ {
+					switch {
+					case row < r0:
+						o[offHint+k] = byte(10 + 20*row)
+						k++
+					case row < 7:
+						o[offHint+k] = 0
+						k++
+					}
+					o[offCnt+row] = byte(k)
+				}
+				o[offCnt+7] = byte(k - rapid.IntRange(1, 7-r0).Draw(rt, "lower"))
+			case "position-after-255":
+				// a row that ends at position 255 followed by one more position byte (count bumped)
+				for i := offHint; i < offCnt+8; i++ {
+					o[i] = 0
+				}
+				row := rapid.IntRange(0, 7).Draw(rt, "row")
+				o[offHint], o[offHint+1], o[offHint+2] = 17, 255, byte(rapid.SampledFrom([]int{255, 17, 0, 200}).Draw(rt, "extra"))
+				for i := row; i < 8; i++ {
+					o[offCnt+i] = 3
+				}
 			case "padding-pair-sum-zero":
 				// two (or three) non-zero padding bytes whose sum is 0 mod 256
 				if total <= 72 {
